@@ -20,7 +20,7 @@ fn meta(ctx: &Ctx) -> Meta {
     Meta {
         level: "exploration",
         rule: format!(
-            "operation histories over {{sign with RSA-4096, protected RSA-3072, Ed25519, ECDSA-P256 (random histories also RSA-2048 and a key pair generated at run time: Ed25519 primary and its Ed25519 signing SUBKEY, which must verify with that key and report the subkey's id); clear signatures; write + re-parse; a FAILING signing attempt (protected key without passphrase), which must leave the package unchanged}}; signing times drawn per (history, step) from {{a fixed past instant, 0, now, now + 400 days, 2100-01-01, u32::MAX}}: ALL sequences up to length {} from built packages with and without files, seeded random histories up to length {} from further built packages and from the six asset packages (unsigned, RSA-signed, IMA-signed, source rpm). After EVERY step a 3-line sequential model (last signer since the last clear) is compared with: verify_signature under each of the four public keys (must succeed exactly for the last signer), signature_key_ids() (exactly that key's id, derived independently with the pgp crate), verify_digests(), and byte identity of header+payload with the starting package. distinct_nontrivial = distinct (start, history prefix) states checked",
+            "operation histories over {{sign with RSA-4096, protected RSA-3072, Ed25519, ECDSA-P256 (random histories also RSA-2048 and a key pair generated at run time: Ed25519 primary and its Ed25519 signing SUBKEY, which must verify with that key and report the subkey's id); clear signatures; write + re-parse (from a slice or through BufReaders of capacity 1 / 3 / 8 / 16 / 96 / 4096); a FAILING signing attempt (protected key without passphrase), which must leave the package unchanged}}; signing times drawn per (history, step) from {{a fixed past instant, 0, now, now + 400 days, 2100-01-01, u32::MAX}}: ALL sequences up to length {} from built packages with and without files, seeded random histories up to length {} from further built packages and from the six asset packages (unsigned, RSA-signed, IMA-signed, source rpm). After EVERY step a 3-line sequential model (last signer since the last clear) is compared with: verify_signature under each of the four public keys (must succeed exactly for the last signer), signature_key_ids() (exactly that key's id, derived independently with the pgp crate), verify_digests(), and byte identity of header+payload with the starting package. distinct_nontrivial = distinct (start, history prefix) states checked",
             ctx.tier.pick(3, 4),
             ctx.tier.pick(8, 12)
         ),
@@ -156,7 +156,11 @@ fn run_history(start: &Package, start_last: Last, hist: &[Op], keys: &[Key], key
             }
             Op::Reparse => {
                 let b = pkg_bytes(&pkg).map_err(|e| format!("write fails: {e}"))?;
-                pkg = Package::parse(&mut &b[..]).map_err(|e| format!("re-parse fails: {e}"))?;
+                // through a slice, or through buffered readers whose buffer runs dry at every kind of
+                // position (capacity 1: at every byte; 8 / 16 / 96: at the segment boundaries)
+                let caps = [0usize, 1, 3, 8, 16, 96, 4096];
+                let cap = caps[(hist.len() * 7 + step * 3 + b.len()) % caps.len()];
+                pkg = if cap == 0 { Package::parse(&mut &b[..]) } else { Package::parse(&mut std::io::BufReader::with_capacity(cap, &b[..])) }.map_err(|e| format!("re-parse (reader capacity {cap}) fails: {e}"))?;
             }
             Op::SignSub => {
                 let Some((gi, signer, _)) = sub else { continue };
